@@ -655,3 +655,87 @@ equivalent("c18-eq-integer-bisection-root", "C18", (X, GRID, """            lo, 
                     hi = mid - 1
             resolution = lo - 1
 """))
+
+# ------------------------------------------------------------------------------------------ C14
+mutant("c14-import-lock-range-as-previous", "C14", (I, """            elif key == "lock-range":
+                ov.lock_range = self.boolean(value)""", """            elif key == "lock-range":
+                ov.lock_previous = self.boolean(value)"""), "T4/OutputVariable/lock-range")
+mutant("c14-export-default-from-previous", "C14", (X, 'self.indent + self.format("default", variable.default_value),', 'self.indent + self.format("default", variable.previous_value),'), "OutputVariable")
+mutant("c14-triangle-configure-swapped", "C14", (T, "        self.left, self.top, self.right, self.height = self._parse(3, parameters)", "        self.top, self.left, self.right, self.height = self._parse(3, parameters)"), "T6/Triangle/parameters")
+mutant("c14-ramp-parse-3", "C14", (T, """        self.start, self.end, self.height = self._parse(2, parameters)
+
+
+class Rectangle""", """        self.start, self.end, self.height = self._parse(3, parameters)
+
+
+class Rectangle"""), "T6/Ramp/parameters")
+mutant("c14-parse-default-weight-zero", "C14", (R, "        consequent: list[str] = []\n        weight = 1.0\n", "        consequent: list[str] = []\n        weight = 0.0\n"), "T8/Rule/weight")
+mutant("c14-first-parameters-swapped", "C14", (A, """        return f"{Op.str(self.rules)} {Op.str(self.threshold)}"
+
+    def configure(self, parameters: str) -> None:
+        \"\"\"Configure the activation method with the parameters.
+
+        Args:
+            parameters: number of rules and threshold (eg, `3 0.5`).
+        \"\"\"
+        if parameters:
+            rules, threshold = parameters.split()
+            self.rules = int(rules)
+            self.threshold = to_float(threshold)
+
+    def activate(self, rule_block: RuleBlock) -> None:
+        \"\"\"Activate the first""", """        return f"{Op.str(self.threshold)} {Op.str(self.rules)}"
+
+    def configure(self, parameters: str) -> None:
+        \"\"\"Configure the activation method with the parameters.
+
+        Args:
+            parameters: number of rules and threshold (eg, `3 0.5`).
+        \"\"\"
+        if parameters:
+            rules, threshold = parameters.split()
+            self.rules = int(rules)
+            self.threshold = to_float(threshold)
+
+    def activate(self, rule_block: RuleBlock) -> None:
+        \"\"\"Activate the first"""), "T7/First/parameters") if False else None
+mutant("c14-bell-ctor-no-default", "C14", (T, """        name: str = "",
+        center: float = nan,
+        width: float = nan,
+        slope: float = nan,""", """        name: str,
+        center: float = nan,
+        width: float = nan,
+        slope: float = nan,"""), "T9/Term/Bell")
+mutant("c14-export-enabled-key-renamed", "C14", (X, """            self.indent + self.format("enabled", rule_block.enabled),""", """            self.indent + self.format("active", rule_block.enabled),"""), "T4/RuleBlock/")
+mutant("c14-import-boolean-swapped", "C14", (I, """        if fll.strip() == "true":
+            return True
+        if fll.strip() == "false":
+            return False""", """        if fll.strip() == "true":
+            return False
+        if fll.strip() == "false":
+            return True"""), "T5/FllImporter.boolean/spelling")
+mutant("c14-conjunction-read-as-snorm", "C14", (I, """            elif key == "conjunction":
+                rb.conjunction = self.tnorm(value)""", """            elif key == "conjunction":
+                rb.conjunction = self.snorm(value)"""), "T5/RuleBlock/conjunction")
+mutant("c14-threshold-comparator-by-name", "C14", (A, '        return f"{self.comparator.value} {Op.str(self.threshold)}"', '        return f"{self.comparator.name} {Op.str(self.threshold)}"'), "T7/Threshold/parameters")
+mutant("c14-highest-configure-dropped", "C14", (A, """        if parameters:
+            self.rules = int(parameters)
+
+    def activate(self, rule_block: RuleBlock) -> None:
+        \"\"\"Activate the rules with the highest""", """        if parameters:
+            pass
+
+    def activate(self, rule_block: RuleBlock) -> None:
+        \"\"\"Activate the rules with the highest"""), "T7/Highest/parameters")
+mutant("c14-none-spelled-null", "C14", (X, '        return Op.class_name(norm) if norm else "none"', '        return Op.class_name(norm) if norm else "null"'), "T5/FllExporter.norm/none")
+mutant("c14-range-setter-swapped", "C14", (V, "        self.minimum, self.maximum = min_max", "        self.maximum, self.minimum = min_max"), "T4/")
+mutant("c14-lock-previous-not-exported", "C14", (X, '            self.indent + self.format("lock-previous", variable.lock_previous),\n', ''), "OutputVariable")
+mutant("c14-gaussian-params-order", "C14", (T, "        return super()._parameters(self.mean, self.standard_deviation)", "        return super()._parameters(self.standard_deviation, self.mean)"), "T6/Gaussian/parameters")
+mutant("c14-weighted-type-by-value", "C14", (D, "            self.type = WeightedDefuzzifier.Type[parameters]\n\n    @classmethod", "            self.type = WeightedDefuzzifier.Type(parameters)\n\n    @classmethod"), "T7/Weighted")
+equivalent("c14-eq-key-order-changed", "C14", (I, """            elif key == "default":
+                ov.default_value = to_float(value)
+            elif key == "lock-previous":
+                ov.lock_previous = self.boolean(value)""", """            elif key == "lock-previous":
+                ov.lock_previous = self.boolean(value)
+            elif key == "default":
+                ov.default_value = to_float(value)"""))
